@@ -5,7 +5,7 @@ CONSTANTS
   MaxPool = 3
   MaxSize = 64
   Raise = FALSE
-  Devs = {"UnnamedNoAlign", "UnionUnnamedIgnored", "PackedNoFinalAlign"}
+  Devs = {}
   Widths = {0, 1, 2, 3, 5, 7, 8, 9, 13, 15, 16, 17, 24, 31, 32, 33, 48, 63, 64}
   Emit = TRUE
   CharSigned = TRUE
